@@ -131,6 +131,7 @@ def AGG(tag, seq, sset):
 
 
 LEN_ARR = z3.Function('len_Arr', ArrSort, I)
+NDIM_ARR = z3.Function('ndim_Arr', ArrSort, I)
 WIDTH = z3.Function('WIDTH', sort_named('PanelData'), I)
 
 
@@ -139,7 +140,9 @@ def _agg_len_axiom(ctx):
   sid = z3.Int('sid!ax')
   st = z3.Const('S!ax', z3.SetSort(I))
   agg = z3.Function('AGG', sort_named('PanelData'), I, z3.SetSort(I), ArrSort)
-  return z3.ForAll([tag, sid, st], LEN_ARR(agg(tag, sid, st)) == WIDTH(tag))
+  return z3.ForAll([tag, sid, st], z3.And(
+      LEN_ARR(agg(tag, sid, st)) == WIDTH(tag),
+      NDIM_ARR(agg(tag, sid, st)) == 1))
 
 
 spec.axioms.append(('numpy: the column sums of a 2-d array have one entry per '
@@ -166,8 +169,10 @@ spec.contract(
         ('sum of the selected rows', lambda s: unwrap(s.result).t == AGG(
             unwrap(s.self._array).val.tag, unwrap(s.self._array).val.labels,
             S(s.geo_indices))),
-        ('one entry per date of the panel', lambda s: LEN_ARR(
-            unwrap(s.result).t) == WIDTH(unwrap(s.self._array).val.tag)),
+        ('a vector with one entry per date of the panel', lambda s: z3.And(
+            LEN_ARR(unwrap(s.result).t) == WIDTH(
+                unwrap(s.self._array).val.tag),
+            NDIM_ARR(unwrap(s.result).t) == 1)),
     ])
 
 spec.contract(
